@@ -11,6 +11,57 @@ NOTE = ("Trusted: the symgo engine (fork of x/tools go/ssa/interp + SMT encoding
 
 # id -> (claim text, design ref)
 CLAIMS = {
+ "C01": ("Scenario on the real db19 transaction layer (HeapStor, synchronous checker, deterministic victim choice): one committed "
+         "row and two overlapping update transactions, each one read (range scan of the key index, or keyed lookup that may miss) "
+         "then one write (insert, or key-changing update) with arbitrary 1-byte values, in 4 interleavings (thorough: every read/write "
+         "kind combination, 5 interleavings): every transaction that commits read what it would have read alone at its commit point "
+         "(no lost update, phantom or write skew) and the final state equals the serial application in commit order.", "4 C01"),
+ "C02": ("Scenario: a read transaction and an update transaction opened before another transaction changes 1 (thorough 1..2) rows and "
+         "commits, merges and persists: at every point the reader sees exactly its start state (both indexes, lookups, counts), "
+         "repeatedly, the writer sees that snapshot plus its own change, a later transaction sees the new state; arbitrary 1-byte values.", "4 C02"),
+ "C03": ("Scenario: a transaction with 1 (thorough 1..2) changes ending by commit, explicit abort, conflict with an overlapping "
+         "transaction that commits first, or commit after an unrelated commit: a fresh reader sees all of its changes iff its completion "
+         "reported success and none otherwise, a failed transaction stays failed, Nrows/Size equal the visible rows and bytes.", "4 C03"),
+ "C06": ("Scenario: table key(a) index(b); after every change of a transaction (output / key-changing or plain update / delete, "
+         "2 (thorough 3) changes, arbitrary 1-byte values), after commit, after the merge and after a persist, each index holds exactly "
+         "one entry per live row under that row's key in order, both indexes point at the same records, counts and sizes match.", "4 C06"),
+ "C09": ("OverIter over a real Builder btree + immutable ixbuf layer + optional mutable layer with symbolic keys and layering-"
+         "consistent add/update/delete entries, unrestricted or symbolic range, scripts of 3 Next/Prev steps with one Rewind / new "
+         "overlay / modification: each step returns exactly the next live in-range key beyond the previous position with the newest "
+         "offset, eof iff none and sticky; btree and ixbuf iterators alone incl. Seek. Skip-scan is NOT covered.", "4 C09"),
+ "C10": ("btree Builder (0..8 symbolic ordered keys, split 2..4) and MergeAndSave (trees of 0..3 keys, batches of 1..2 changes, every "
+         "placement, 4 split/length configurations): iteration, Check, node walk (separators, fan-out, sizes) and Lookup of a symbolic "
+         "probe equal the model map, the old tree is unchanged; RangeFrac in [0,1] and 0 for empty ranges on 12..13-key trees built "
+         "four ways.", "4 C10"),
+ "C15": ("hamt as a persistent map: 3 keys with symbolic colliding hash digits, 3 ops from Put/Delete/Freeze+Mutable: Get/All on the "
+         "current and on every frozen version equal the per-version model; persist cycles (put/drop/persist/reopen scripts, prologue "
+         "chains up to maxChain, tombstones, lastMod filtering, flatten): after every WriteChain the original chain is unmodified, chain "
+         "length/ages/clock match an independent nmerge model and ReadChain yields exactly the live entries.", "4 C15"),
+ "C16": ("Scenario: three commits of one change each with merge and persist split into compute/apply exactly as the background "
+         "goroutines split them, a commit landing in the gap, 6 schedules, arbitrary 1-byte values: after every state change both "
+         "indexes and the Nrows/Size statistics equal the model of the committed changes applied in order.", "4 C16"),
+ "C18": ("Stor.Alloc with 2 (thorough 3) concurrent threads under the engine's scheduler: interleaved at every atomic/lock operation "
+         "with at most 2 pre-emptions, sizes and initial fill from a spread around the chunk boundary (thorough: every size 1..16, "
+         "chunk 16): every allocation fails loudly or returns exactly n bytes inside one chunk, inside Size(), disjoint from the others. "
+         "Exploration is exhaustive over schedules within the bound; a violating schedule cannot be forced natively (reported as "
+         "inconclusive, exit 3, not as VIOLATION).", "4 C18"),
+ "C19": ("A store with 1..2 (thorough 3) persisted states at fixed base + arbitrary 8-bit (thorough 16-bit) increasing times and "
+         "optional filler: for an arbitrary requested time stateAsof / ReadTran.Asof return the newest state at or before it (the oldest "
+         "if none) with that state's own offset, and previous/next visit the states in file order and report none past either end.", "4 C19"),
+ "C21": ("In-memory Meta: 6 pre-states x 1 request from a pool of 33 (create, ensure, alter create/rename/drop, rename, drop, view; "
+         "arbitrary fk mode; optional persist first) and 4 pre-states x 2 requests: a refused request leaves Meta unchanged; after an "
+         "accepted one every table has a key, index columns exist, Fk and FkToHere match one-to-one, Schema.Check passes and "
+         "Write+ReadMeta agrees with memory on schema text, columns, indexes, Fields, ContainsKey, fk links and views.", "4 C21"),
+ "C37": ("36 (thorough 64) concrete patterns of the common subset, each with a hand-built AST for a naive backtracking reference "
+         "matcher in the harness; subject = 0..3 (thorough 4) arbitrary bytes: Match/FirstMatch from every start/All/LastMatch at "
+         "every position agree with the reference on found, span and groups 1..9; positions outside the subject never panic.", "4 C37"),
+ "C42": ("The real builtin Transaction(read:/update:, block) with a recording dbms/transaction and a block that returns, block-"
+         "returns, throws, completes or rolls back the transaction itself, or whose commit fails: completed exactly once iff the block "
+         "finished, rolled back exactly once iff it threw, untouched if already ended, and the exception always propagates.", "4 C42"),
+ "C44": ("Trigger enable/disable counting for every script of up to 4 calls; scenario with two tables linked by a cascading foreign "
+         "key and recording triggers: one call per row actually changed (insert, update, delete, cascaded delete/update) in the changed "
+         "table with that row's old/new value, none for an identical update or while disabled, and a throwing trigger leaves nothing "
+         "committed; arbitrary 1-byte values.", "4 C44"),
  "C07": ("Scenario on the real db19 transaction layer (HeapStor, synchronous checker): table key(a) unique(u), two transactions each "
          "adding a row with arbitrary 0..1-byte values in 5 interleavings (and key() tables; and updates of key/unique value): in every "
          "committed state no two rows share a key (incl. the empty key) or a non-empty unique value, refusals happen exactly on "
